@@ -31,8 +31,9 @@ VARIABLES slot,    \* the shared tree
           held,    \* the consumer still holds a reference to it
           cnt,     \* last Count: [n |-> reported, expect |-> mutants the full enumeration yields]
           failed,  \* an `assert` of the mutator fired
+          halt,    \* exploration stops after a Count (see Count)
           nact, nstart
-vars == <<slot, enum, held, cnt, failed, nact, nstart>>
+vars == <<slot, enum, held, cnt, failed, halt, nact, nstart>>
 
 Unlimited == -1
 
@@ -62,7 +63,8 @@ NoEnum == NewEnum(NoCfg, "none")
 Live == enum.st \in {"fresh", "susp"}
 
 Init == /\ slot = Pristine /\ enum = NoEnum /\ held = FALSE
-        /\ cnt = [n |-> 0, expect |-> 0, hom |-> FALSE] /\ failed = FALSE /\ nact = 0 /\ nstart = 0
+        /\ cnt = [n |-> 0, expect |-> 0, hom |-> FALSE] /\ failed = FALSE /\ halt = FALSE
+        /\ nact = 0 /\ nstart = 0
 
 (* ----------------------------------------------------------------------- *)
 (* the bodies of the three `mutate` generators, from resume to next yield   *)
@@ -132,25 +134,27 @@ ResumeHom(e, s) ==
 Commit(r) == /\ enum' = r.enum /\ slot' = r.slot /\ failed' = (failed \/ r.failed)
 
 Start ==
-  /\ ~Live /\ nstart < MaxStarts
+  /\ ~halt /\ ~Live /\ nstart < MaxStarts
   /\ \E c \in Configs : enum' = NewEnum(c, "fresh")
   /\ held' = TRUE /\ nstart' = nstart + 1 /\ nact' = nact + 1
-  /\ UNCHANGED <<slot, cnt, failed>>
+  /\ UNCHANGED <<slot, cnt, failed, halt>>
 
 Next ==
-  /\ held /\ Live
-  /\ IF enum.st = "fresh" THEN
-       LET po == PerOp(1, slot, <<>>)                \* ghost for plain, real work otherwise
-           e1 == [enum EXCEPT !.full = Flatten(po.lists)]
-       IN IF enum.cfg.mode = "plain" THEN Commit(AdvPlain(e1, 1, Fresh, slot))
-          ELSE IF enum.cfg.mode = "select"
-          THEN \E sel \in Selections(po.lists, enum.cfg.cap) : Commit(ContSelect(e1, sel, po.slot))
-          ELSE Commit(ContHom(e1, Groups(Flatten(po.lists), enum.cfg.strat, enum.cfg.order), po.slot))
-     ELSE IF enum.cfg.mode = "plain" THEN Commit(AdvPlain(enum, enum.opi, enum.gens[1].stack, slot))
-          ELSE IF enum.cfg.mode = "select" THEN Commit(ResumeSelect(enum, slot))
-          ELSE Commit(ResumeHom(enum, slot))
+  /\ ~halt /\ held /\ Live
+  /\ \E r \in
+        IF enum.st = "fresh" THEN
+          LET po == PerOpAt(slot)                       \* ghost for plain, real work otherwise
+              e1 == [enum EXCEPT !.full = Flatten(po.lists)]
+          IN IF enum.cfg.mode = "plain" THEN {AdvPlain(e1, 1, Fresh, slot)}
+             ELSE IF enum.cfg.mode = "select"
+             THEN {ContSelect(e1, sel, po.slot) : sel \in Selections(po.lists, enum.cfg.cap)}
+             ELSE {ContHom(e1, Groups(Flatten(po.lists), enum.cfg.strat, enum.cfg.order), po.slot)}
+        ELSE IF enum.cfg.mode = "plain" THEN {AdvPlain(enum, enum.opi, enum.gens[1].stack, slot)}
+             ELSE IF enum.cfg.mode = "select" THEN {ResumeSelect(enum, slot)}
+             ELSE {ResumeHom(enum, slot)} :
+        Commit(r)
   /\ nact' = nact + 1
-  /\ UNCHANGED <<held, cnt, nstart>>
+  /\ UNCHANGED <<held, cnt, halt, nstart>>
 
 (* GeneratorExit at the yield.  As coded nothing is written back.  With the fix every *)
 (* frame writes its old value back (for a HOM stack: last generator first).            *)
@@ -163,34 +167,37 @@ Exit == /\ enum' = [enum EXCEPT !.st = "closed", !.gens = <<>>]
         /\ slot' = IF enum.st = "susp" /\ ~AsCoded THEN UnwindAll(enum.gens, slot) ELSE slot
 
 Close ==
-  /\ held /\ Live /\ (enum.st = "susp" => EarlyExit)
+  /\ ~halt /\ held /\ Live /\ (enum.st = "susp" => EarlyExit)
   /\ Exit
   /\ nact' = nact + 1
-  /\ UNCHANGED <<held, cnt, failed, nstart>>
+  /\ UNCHANGED <<held, cnt, failed, halt, nstart>>
 
 Abandon ==
-  /\ held /\ Live /\ (enum.st = "susp" => EarlyExit)
+  /\ ~halt /\ held /\ Live /\ (enum.st = "susp" => EarlyExit)
   /\ held' = FALSE
   /\ nact' = nact + 1
-  /\ UNCHANGED <<slot, enum, cnt, failed, nstart>>
+  /\ UNCHANGED <<slot, enum, cnt, failed, halt, nstart>>
 
 Collect ==          \* the garbage collector finalises an unreferenced generator: close()
-  /\ ~held /\ Live
+  /\ ~halt /\ ~held /\ Live
   /\ Exit
-  /\ UNCHANGED <<held, cnt, failed, nact, nstart>>
+  /\ UNCHANGED <<held, cnt, failed, halt, nact, nstart>>
 
-(* mutation_count of a first-order mutator (any cap / reorder) or of a HOM mutator *)
+(* mutation_count of a first-order mutator (any cap / reorder) or of a HOM mutator, in   *)
+(* every quiescent state.  It changes nothing but the tree (and RestoredAtQuiescence     *)
+(* is checked on its result), so what can follow a Count is what can follow its          *)
+(* pre-state: exploration halts there instead of multiplying the state space.            *)
 Count ==
-  /\ ~Live
-  /\ \E c \in Configs :
-       LET po == PerOp(1, slot, <<>>)
-           full == Flatten(po.lists)
-           yields == IF c.mode = "hom" THEN Len(Groups(full, c.strat, c.order)) ELSE Len(full)
-       IN /\ cnt' = [n |-> IF AsCoded THEN Len(full) ELSE yields, expect |-> yields,
-                      hom |-> c.mode = "hom"]
-          /\ slot' = po.slot
-  /\ nact' = nact + 1
-  /\ UNCHANGED <<enum, held, failed, nstart>>
+  /\ ~halt /\ ~Live
+  /\ \E po \in {PerOpAt(slot)} :
+       \E c \in Configs :
+         LET full == Flatten(po.lists)
+             yields == IF c.mode = "hom" THEN Len(Groups(full, c.strat, c.order)) ELSE Len(full)
+         IN /\ cnt' = [n |-> IF AsCoded THEN Len(full) ELSE yields, expect |-> yields,
+                        hom |-> c.mode = "hom"]
+            /\ slot' = po.slot
+  /\ halt' = TRUE
+  /\ UNCHANGED <<enum, held, failed, nact, nstart>>
 
 NextStep == Start \/ Next \/ Close \/ Abandon \/ Collect \/ Count
 Spec == Init /\ [][NextStep]_vars
